@@ -694,3 +694,64 @@ func (s *UtxoStore) VerifWF() bool { return s != nil && s.bucketMeta != nil }
 //@   loop#1 invariant finish
 //@   at "if err := iter.Error(); err != nil { return nil, false, err }" assert[C08] finish ==> len(ggets("iterkey", iter)) == 0
 //@   at "err = deleteRawCredit(nsCredits, itKey)" assert[C08] has(scriptHashSet, strOf(cred.scriptHash))
+
+// ---------------------------------------------------------------------------------------------
+// C01 (ledger codecs, continued): the per-height block record  hash(32) | time(8) | n(4) | n * txhash(32).
+// It is the list Rollback walks when a block is disconnected, so the count must cover every appended hash.
+//@ func valueBlockRecord
+//@   props C01 C19
+//@   requires block != nil && txHash != nil
+//@   ensures len(result) == 76 && fresh(result) && bytesEq(result, 0, block.Hash, 0, 32) && be32(result, 40) == 1 && bytesEq(result, 44, txHash, 0, 32)
+
+//@ func appendRawBlockRecord
+//@   props C01 C18 C19
+//@   requires txHash != nil
+//@   ensures (err != nil) == (len(v) < 44)
+//@   ensures err != nil ==> result == nil
+//@   ensures err == nil ==> fresh(result) && len(result) == len(v) + 32 && bytesEq(result, 0, v, 0, 40) && bytesEq(result, 44, v, 44, len(v) - 44) && bytesEq(result, len(v), txHash, 0, 32)
+//@   ensures[C01] err == nil ==> mathint(be32(result, 40)) == mathmod(mathint(be32(v, 40)) + 1, 4294967296)
+
+//@ func putRawBlockRecord
+//@   props C01 C18 C19
+//@   requires ns != nil
+//@   modifies bmap(ns)
+//@   ensures err == nil ==> len(k) > 0 && len(v) > 0 && bhas(ns, k) && bval(ns, k) == strOf(v) && bsameExcept(ns, k)
+//@   ensures err != nil ==> bsame(ns)
+
+//@ func putBlockRecord
+//@   props C01 C18 C19
+//@   requires ns != nil && block != nil && txHash != nil
+//@   modifies bmap(ns)
+//@   ensures err != nil ==> bsame(ns)
+//@   at "return putRawBlockRecord(ns, k, v)" assert[C01] len(k) == 8 && be64(k, 0) == block.Height && len(v) == 76 && be32(v, 40) == 1 && bytesEq(v, 44, txHash, 0, 32)
+
+//@ func existsBlockRecord
+//@   props C01 C18 C19
+//@   requires ns != nil
+//@   ensures len(k) == 8 && fresh(k) && be64(k, 0) == height
+//@   ensures err != nil ==> v == nil
+//@   ensures err == nil ==> (v != nil) == bhas(ns, k)
+//@   ensures v != nil ==> len(v) > 0 && strOf(v) == bval(ns, k) && fresh(v)
+
+//@ func deleteBlockRecord
+//@   props C01 C18 C19
+//@   requires ns != nil
+//@   modifies bmap(ns)
+//@   ensures err != nil ==> bsame(ns)
+//@   at "return ns.Delete(k)" assert[C01] len(k) == 8 && be64(k, 0) == height
+
+//@ func readBlockHashFromValue
+//@   props C01 C19
+//@   ensures (err != nil) == (len(v) < 44)
+//@   ensures err == nil ==> bytesEq(blkHash, 0, v, 0, 32)
+
+// updateBlockRecord rewrites the record of a height with a given non-empty list of transaction hashes
+//@ func updateBlockRecord
+//@   props C01 C18 C19
+//@   requires ns != nil && block != nil && len(txHashes) >= 1 && len(txHashes) < 4294967296
+//@   modifies bmap(ns)
+//@   ensures err != nil ==> bsame(ns)
+//@   loop#1 invariant 1 <= i && i <= len(txHashes) && len(v) == 44 + 32 * i && fresh(v) && mathint(be32(v, 40)) == i && len(k) == 8 && fresh(k) && be64(k, 0) == block.Height
+//@   at "return putRawBlockRecord(ns, k, v)" assert[C01] len(k) == 8 && be64(k, 0) == block.Height
+//@   at "return putRawBlockRecord(ns, k, v)" assert[C01] len(v) == 44 + 32 * len(txHashes)
+//@   at "return putRawBlockRecord(ns, k, v)" assert[C01] mathint(be32(v, 40)) == len(txHashes)
